@@ -211,8 +211,32 @@ def frame_fingerprint(df):
           util.fp([list(map(str, df[c].tolist())) for c in df.columns]))
 
 
-def run_search(case, which, mods=None):
+def alt_params(case, r):
+  """Parameters for a *second* matched-markets object on the same data object: same window and test
+  length, but geo-level constraints that admit a different set of geos (so its geo index differs)."""
+  kw = dict(case['params'])
+  G = len(case['panel']['ids'])
+  vals = np.where(case['panel']['present'], case['panel']['values'], 0.0)
+  shares = vals.mean(axis=1) / vals.mean(axis=1).sum()
+  for k in ('n_geos_max', 'treatment_share_range', 'budget_range'):
+    kw.pop(k, None)
+  u = r.random()
+  if u < 0.4 and G >= 3:
+    kw['n_geos_max'] = r.randrange(2, G)
+  elif u < 0.8:
+    cut = float(sorted(shares)[-1])
+    kw['treatment_share_range'] = (1e-7, min(0.999, cut * 0.999))     # drops the largest geo
+  else:
+    kw['budget_range'] = (0.0, 1e-9)                                    # admits (almost) nothing
+  return kw
+
+
+def run_search(case, which, mods=None, interleave=None):
   """Runs one search on fresh objects at the client boundary.
+
+  interleave: optional random.Random. When given, the data object is *shared* with a second matched-markets
+  object built with alt_params(); the sequence  A.search -> B.search -> A.search  is executed and the last
+  call is the one recorded and judged (its answer must be what A gives on its own).
 
   Returns dict: outcome (util.Outcome), designs (normalised list, when returned),
   admitted (observed geos_within_constraints), events (probe sinks), par_before/after,
@@ -231,6 +255,17 @@ def run_search(case, which, mods=None):
   adm = util.call(lambda: set(mm.geos_within_constraints))
   rec['admitted'] = adm.value if adm.ok else None
   rec['par_before'] = snapshot_params(par)
+  rec['interleaved'] = False
+  if interleave is not None:
+    smod = bootstrap.mm('tbrmatchedmarkets') if mods is None else mods.tbrmatchedmarkets
+    pmod = bootstrap.mm('tbrmmdesignparameters') if mods is None else mods.tbrmmdesignparameters
+    other = util.call(lambda: smod.TBRMatchedMarkets(data, pmod.TBRMMDesignParameters(**alt_params(case, interleave))))
+    if other.ok:
+      first = util.call(getattr(mm, which + '_search'))
+      small = len(case['panel']['ids']) <= 6
+      util.call(getattr(other.value, (interleave.choice(['exhaustive', 'greedy']) if small else 'greedy') + '_search'))
+      rec['interleaved'] = True
+      rec['first_outcome'] = first
   probes.reset()
   out = util.call(getattr(mm, which + '_search'))
   rec['outcome'] = out
